@@ -41,21 +41,25 @@ class Func:
 
 
 class Program:
-    def __init__(self, root: str = '/repo/src'):
+    def __init__(self, root: str = '/repo/src', sources: dict | None = None):
+        """root: directory containing the package;  sources: {relative path: source text} (in-memory program, used by self-tests)"""
         self.root = root
         self.modules: dict[str, Module] = {}
-        base = pathlib.Path(root) / PKG
-        if not base.is_dir():
-            raise FileNotFoundError(f'{base} not found')
-        for p in sorted(base.rglob('*.py')):
-            rel = str(p.relative_to(base))
-            parts = list(p.relative_to(base).with_suffix('').parts)
+        if sources is None:
+            base = pathlib.Path(root) / PKG
+            if not base.is_dir():
+                raise FileNotFoundError(f'{base} not found')
+            sources = {str(p.relative_to(base)): p.read_text(encoding='utf-8') for p in sorted(base.rglob('*.py'))}
+            self.root = root
+        for rel in sorted(sources):
+            src = sources[rel]
+            parts = list(pathlib.PurePosixPath(rel).with_suffix('').parts)
             is_pkg = parts[-1] == '__init__'
             if is_pkg: parts = parts[:-1]
             name = '.'.join([PKG] + parts)
-            src = p.read_text(encoding='utf-8')
-            tree = ast.parse(src, filename=str(p))
-            self.modules[name] = Module(name, rel, str(p), tree, src, is_pkg)
+            tree = ast.parse(src, filename=rel)
+            self.modules[name] = Module(name, rel, os.path.join(root or '', PKG, rel), tree, src, is_pkg)
+        self.sources = sources
         for m in self.modules.values():
             self._index(m)
         self.funcs: dict[str, Func] = {}
